@@ -6,7 +6,10 @@ corr (a): the real `Template(filename=…, module_directory=…)` runs in-proces
           of the source, a direct open() of the destination, compat.load_module) over random histories (<= 12
           ops: touch the source newer/older/equal, delete the module, remove the module directory, replace the
           module by one with another magic number and/or generated from another template file, construct -
-          also with a raising or short-writing primitive in either write group and with module_writer hooks);
+          also with a raising or short-writing primitive in either write group and with module_writer hooks;
+          the Template is given an absolute name, a relative one (cwd = the sandbox; optionally re-spelled
+          './src//t.html' <-> 'src/t.html' between constructs) or comes from a TemplateLookup over a relative
+          directory);
           per construct the recorded write-group sequence, the number of (re)writes, what is served, what the
           module path holds afterwards (version, magic, template file, mtime), the left-over temp files and the
           hook calls are compared with the Lean model (`modfile hist`).  The file system's clock is a logical
@@ -15,7 +18,7 @@ corr (a): the real `Template(filename=…, module_directory=…)` runs in-proces
           the model, and the outcomes of (c) vs `modfile conc`.
 oracle  : judged against the property text, no Lean involved:
       (in-process) every construct of (a): written iff missing / older (whole seconds) / other magic number /
-          generated from another file; a reused module keeps bytes, inode and mtime; module_writer called with
+          generated from another file (file identity, not the spelling of the name); a reused module keeps bytes, inode and mtime; module_writer called with
           (current module source, module path) exactly when due; what is served is current after a rewrite or
           when the file was current; the module path holds nothing or a complete module;
       (b) fault enumeration in SUBPROCESSES: 5 start states x every call k of the write group x {kill before,
@@ -45,7 +48,8 @@ RULE = ("histories of <= 12 ops over {touch source newer/older/equal (relative t
         "stamped T.25, modules T.31), delete module, remove module directory, replace module by one with another "
         "_magic_number and/or generated from another template file (fresh, equal or stale mtime), construct, "
         "construct with a raising or short-writing primitive in either write group, construct with a module_writer "
-        "hook (installing / doing nothing)} + 12 fixed histories; a history is non-trivial when it contains a reuse "
+        "hook (installing / doing nothing), re-spell the relative file name}; each history runs with an absolute file name, a "
+        "relative one or through a TemplateLookup over a relative directory; + 15 fixed histories; a history is non-trivial when it contains a reuse "
         "and a rewrite; distinct = distinct op-token sequences.  Fault enumeration: start states {no module, stale "
         "module, other magic number, generated from another file, stale + missing directory} x every call k of the "
         "write group x {kill before, kill after, kill midway (write), raise, short write} = 70 cases.  Concurrency: "
@@ -430,8 +434,9 @@ _probe_n = [0]
 
 
 def inspect_module(path, srcfile):
-    """('absent',) | ('complete', version, magic, generated-from-this-file?) | ('broken', why)
-    complete = compiles, has _magic_number, renders"""
+    """('absent',) | ('complete', version, magic, generated from this FILE?, recorded name == srcfile?, recorded name)
+    | ('broken', why);  complete = compiles, has _magic_number, renders.  "This file" is judged by file identity
+    (realpath), relative names against the current working directory"""
     if not os.path.exists(path):
         return ("absent",)
     try:
@@ -448,7 +453,10 @@ def inspect_module(path, srcfile):
         v = version_of(out)
         if v is None:
             return ("broken", "renders %r" % (out[:40],))
-        return ("complete", v, magic, getattr(mod, "_template_filename", None) == srcfile)
+        rec_name = getattr(mod, "_template_filename", None)
+        same_file = isinstance(rec_name, str) and \
+            os.path.realpath(os.path.abspath(rec_name)) == os.path.realpath(os.path.abspath(srcfile))
+        return ("complete", v, magic, same_file, rec_name == srcfile, rec_name)
     except BaseException as e:                 # noqa: a truncated module can fail in any way
         return ("broken", type(e).__name__)
 
@@ -482,17 +490,45 @@ def make_module_text(srcfile, scratch, magic):
 # --------------------------------------------------------------------------- a sandbox = source + module dir
 
 class Sandbox:
-    def __init__(self, base, name="t.html", moddir="mods"):
+    """mode 'abs': the Template is given the absolute file name; 'rel': a relative one (cwd = base), spelling 0 =
+    'src/t.html', spelling 1 = './src//t.html' (same module path); 'lookup': through a TemplateLookup over the
+    relative directory 'src'"""
+
+    def __init__(self, base, name="t.html", moddir="mods", mode="abs"):
         self.base = base
+        self.mode = mode
         self.src = os.path.join(base, "src", name)
         self.other = os.path.join(base, "src", "other_" + name)
         self.moddir = os.path.join(base, moddir)
         self.scratch = os.path.join(base, "scratch")
         os.makedirs(os.path.dirname(self.src), exist_ok=True)
         os.makedirs(self.scratch, exist_ok=True)
-        self.mp = module_path(self.moddir, self.src)
+        self.spell = 0
+        self.leaf = name
+        if mode == "abs":
+            self.names = [self.src]
+            self.other_name = self.other
+            self.mp = module_path(self.moddir, self.src)
+        else:
+            self.names = ["src/" + name, "./src//" + name]
+            self.other_name = "src/other_" + name
+            self.mp = os.path.join(self.moddir, "src", name + ".py") if mode == "rel" else os.path.join(self.moddir, name + ".py")
+        self.used = set()
         self.ver = 0
         self.clock = 1000
+
+    @property
+    def name(self):
+        return self.names[self.spell]
+
+    def construct(self, writer=None):
+        from mako.template import Template
+        self.used.add(self.name)
+        if self.mode == "lookup":
+            from mako.lookup import TemplateLookup
+            lk = TemplateLookup(directories=["src"], module_directory=self.moddir, module_writer=writer)
+            return lk.get_template(self.leaf)
+        return Template(filename=self.name, module_directory=self.moddir, module_writer=writer)
 
     def write_src(self, mtime):
         self.ver += 1
@@ -516,11 +552,11 @@ class Sandbox:
     def replace_mod(self, magic, mtime, other=False):
         """install a complete module at the module path: of another generator version (magic) and / or generated
         from ANOTHER template file (which renders version 1000 + current)"""
-        src = self.src
+        src = self.name
         if other:
             with open(self.other, "w") as f:
                 f.write(src_text(1000 + self.ver))
-            src = self.other
+            src = self.other_name
         data = make_module_text(src, self.scratch, magic)
         os.makedirs(os.path.dirname(self.mp), exist_ok=True)
         with open(self.mp, "wb") as f:
@@ -533,8 +569,11 @@ class Sandbox:
 def gen_history(rng, quick):
     """list of op dicts; a source modification's mtime is chosen when the op is executed (relative to the module)"""
     n = rng.randint(3, 12)
-    ops = [{"op": "touch", "rel": "older"}]
+    mode = rng.choice(["abs", "abs", "abs", "rel", "rel", "lookup"])
+    ops = [{"op": "touch", "rel": "older", "mode": mode}]
     weights = [("construct", 30), ("touch", 24), ("delete", 8), ("replace", 10), ("fault", 14), ("hook", 10), ("rmdir", 4)]
+    if mode == "rel":
+        weights.append(("respell", 6))
     tot = sum(w for _, w in weights)
     while len(ops) < n:
         r = rng.randrange(tot)
@@ -639,22 +678,32 @@ def check_trail(ops, sb):
     names = [o[0] for o in ops]
     first_group = next((i for i, n in enumerate(names) if n in ("mkstemp", "opendest")), len(names))
     head = [o for o in ops[:first_group]]
-    if not any(o[0] == "stat" and o[1] == sb.src for o in head):
+    if not any(o[0] == "stat" and o[1] == sb.name for o in head):
         bad.append("no stat(source) before the first write group")
     if not any(o[0] == "exists" and o[1] == sb.mp for o in head):
         bad.append("no exists(module path) before the first write group")
     for i, n in enumerate(names):
         if n in ("mkstemp", "opendest"):
             prev = names[:i]
-            if "open" not in prev or not any(o[0] == "open" and o[1] == sb.src for o in ops[:i]):
+            if "open" not in prev or not any(o[0] == "open" and o[1] == sb.name for o in ops[:i]):
                 bad.append("write group not preceded by reading the source")
     return bad
 
 
 def run_history(ctx, hist, base, record_oracle=True):
     """runs `hist` on the real code; returns (model request, per-construct real records, oracle complaints)"""
-    from mako.template import Template
-    sb = Sandbox(base)
+    mode = hist[0].get("mode", "abs") if hist else "abs"
+    sb = Sandbox(base, mode=mode)
+    cwd = os.getcwd()
+    if mode != "abs":
+        os.chdir(base)
+    try:
+        return _run_history(ctx, hist, sb, record_oracle)
+    finally:
+        os.chdir(cwd)
+
+
+def _run_history(ctx, hist, sb, record_oracle):
     toks = []
     reals = []
     complaints = []
@@ -664,7 +713,11 @@ def run_history(ctx, hist, base, record_oracle=True):
     for op in hist:
         sb.clock += 1 + (len(op["op"]) % 2)
         kind = op["op"]
-        if kind == "touch":
+        if kind == "respell":
+            if sb.mode == "rel":
+                sb.spell = 1 - sb.spell
+                toks.append("F%d" % sb.spell)
+        elif kind == "touch":
             mm = sb.mod_mtime()
             ref = mm if mm is not None else sb.clock
             m = {"newer": ref + 1 + (sb.clock % 3), "older": max(1, ref - 1 - (sb.clock % 3)), "equal": ref}[op["rel"]]
@@ -682,7 +735,7 @@ def run_history(ctx, hist, base, record_oracle=True):
             m = {"fresh": max(sm, sb.clock), "stale": max(1, sm - 2), "equal": sm}[op["rel"]]
             other = bool(op.get("other"))
             sb.replace_mod(op["magic"], m, other)
-            toks.append("R%d.%d.%d.1.%d" % (1000 + sb.ver if other else sb.ver, op["magic"], m, 1 if other else 0))
+            toks.append("R%d.%d.%d.1.%d" % (1000 + sb.ver if other else sb.ver, op["magic"], m, 99 if other else sb.spell))
         elif kind == "construct":
             toks.append("K%d" % sb.clock)
             fault = op.get("fault")
@@ -690,7 +743,7 @@ def run_history(ctx, hist, base, record_oracle=True):
             plan = "%s/%s/n/1/1" % (fates_str(fault, 1), fates_str(fault, 2))
             toks.append(("C" if not hook else ("H" if hook == "install" else "N")) + plan)
             rec = Recorder(FaultPlan({(fault[0], fault[1]): fault[2]} if fault else None), clock=sb.clock)
-            before = inspect_module(sb.mp, sb.src)
+            before = inspect_module(sb.mp, sb.name)
             before_mtime = sb.mod_mtime()
             before_bytes = open(sb.mp, "rb").read() if os.path.exists(sb.mp) else None
             before_ino = os.stat(sb.mp).st_ino if os.path.exists(sb.mp) else None
@@ -713,19 +766,19 @@ def run_history(ctx, hist, base, record_oracle=True):
             res = None
             try:
                 try:
-                    t = Template(filename=sb.src, module_directory=sb.moddir, module_writer=writer)
+                    t = sb.construct(writer)
                     out = t.render()
                     res = {"res": "served", "ver": version_of(out), "magic": t.module._magic_number}
                 except Exception as e:  # noqa
                     res = {"res": "failed", "exc": type(e).__name__}
             finally:
                 rec.uninstall()
-            after = inspect_module(sb.mp, sb.src)
-            temps = [inspect_module(os.path.join(os.path.dirname(sb.mp), f), sb.src)[0] == "complete" for f in temp_files(sb.mp)]
+            after = inspect_module(sb.mp, sb.name)
+            temps = [inspect_module(os.path.join(os.path.dirname(sb.mp), f), sb.name)[0] == "complete" for f in temp_files(sb.mp)]
             res.update({"ops": rec.ops, "groups": rec.groups_begun, "after": after, "mtime": sb.mod_mtime(),
                         "temps": sorted(temps), "hook_calls": [(version_of_module_source(s), p == sb.mp) for s, p in hook_calls],
                         "trail": check_trail(rec.ops, sb) if not hook else [], "cur": sb.ver, "before": before,
-                        "fault": fault, "hook": hook})
+                        "fault": fault, "hook": hook, "spell": sb.spell, "mode": sb.mode})
             reals.append(res)
             if record_oracle and before[0] != "broken":
                 # the property text, read directly (no model): due = missing, older than the source, other generator version
@@ -734,9 +787,12 @@ def run_history(ctx, hist, base, record_oracle=True):
                 due = before[0] == "absent" or before_mtime < sb.src_mtime() or before[2] != CG.MAGIC_NUMBER or not before[3]
                 wrote = (len(hook_calls) if hook else rec.groups_begun) > 0
                 what = "module_writer called" if hook else "module written"
+                respelled = before[0] == "complete" and before[3] and not before[4] and before[5] in sb.used
                 if wrote and not due:
-                    complaints.append({"site": "rewrite-when-not-due", "detail": "%s although the module (mtime %.2f, magic %r, generated from this file) is not older than the source (mtime %.2f)"
-                                       % (what, (before_ns or 0) / 1e9, before[2], os.stat(sb.src).st_mtime_ns / 1e9)})
+                    complaints.append({"site": "respelled-filename-rewrite" if respelled else "rewrite-when-not-due", "detail": "%s although the module (mtime %.2f, magic %r, generated from this file) is not older than the source (mtime %.2f)"
+                                       % (what, (before_ns or 0) / 1e9, before[2], os.stat(sb.src).st_mtime_ns / 1e9)
+                                       + (" - the module records the name %r, this Template was given %r" % (before[5], sb.name)
+                                          if not before[4] else "")})
                 if due and not wrote:
                     complaints.append({"site": "no-rewrite-when-due", "detail": "not %s although due: before=%r mtime %r, source mtime %r"
                                        % (what, before, before_mtime, sb.src_mtime())})
@@ -790,7 +846,7 @@ def parse_record(r):
     else:
         body, mt = modf.split("@")
         src, magic, comp, stamp, fil = body.split(":")
-        d["after"] = ("complete", int(src), int(magic), fil == "0") if comp == "1" else ("broken",)
+        d["after"] = ("complete", int(src), int(magic), int(fil)) if comp == "1" else ("broken",)
         d["mtime"] = int(mt)
     d["temps"] = sorted([] if temps == "-" else [t.split("=")[1].split(":")[2] == "1" for t in temps.split(",")])
     return d
@@ -816,6 +872,10 @@ def compare(real, model, rmdir_seen):
             diffs.append(("hook_calls", model["calls"], real["hook_calls"]))
     ra = real["after"]
     ma = model["after"]
+    if ra[0] == "complete":
+        ra = (ra[0], ra[1], ra[2], ra[4])                       # (…, the recorded name is the name now given)
+    if ma[0] == "complete":
+        ma = (ma[0], ma[1], ma[2], ma[3] == real["spell"])
     if ra[0] != ma[0] or (ra[0] == "complete" and tuple(ra[1:]) != tuple(ma[1:])):
         diffs.append(("module-path", ma, ra))
     elif ra[0] != "absent" and real["mtime"] != model["mtime"]:
@@ -832,7 +892,7 @@ def hist_tokens(hist):
     for o in hist:
         t = o["op"]
         if t == "touch":
-            t += ":" + o["rel"]
+            t += ":" + o["rel"] + (":mode=" + o["mode"] if o.get("mode") else "")
         elif t == "replace":
             t += ":%d:%s%s" % (o["magic"], o["rel"], ":otherfile" if o.get("other") else "")
         elif t == "construct":
@@ -901,6 +961,13 @@ def corr_histories(ctx, root):
         [{"op": "touch", "rel": "older"}, {"op": "construct"}, {"op": "replace", "magic": 9, "rel": "fresh"}, {"op": "construct"},
          {"op": "replace", "magic": 11, "rel": "stale"}, {"op": "construct"}, {"op": "delete"}, {"op": "construct"}],
         [{"op": "touch", "rel": "older"}, {"op": "construct", "fault": [1, 1, "s"]}, {"op": "construct"}],
+        [{"op": "touch", "rel": "older", "mode": "rel"}, {"op": "construct"}, {"op": "construct"}, {"op": "construct", "hook": "install"},
+         {"op": "touch", "rel": "equal"}, {"op": "construct"}, {"op": "touch", "rel": "newer"}, {"op": "construct", "hook": "install"},
+         {"op": "construct", "hook": "install"}],
+        [{"op": "touch", "rel": "older", "mode": "lookup"}, {"op": "construct"}, {"op": "construct", "hook": "install"},
+         {"op": "replace", "magic": 9, "rel": "fresh"}, {"op": "construct"}, {"op": "construct"}],
+        [{"op": "touch", "rel": "older", "mode": "rel"}, {"op": "construct"}, {"op": "respell"}, {"op": "construct"},
+         {"op": "construct"}, {"op": "respell"}, {"op": "construct", "hook": "install"}],
         [{"op": "touch", "rel": "older"}, {"op": "construct"}, {"op": "replace", "magic": 10, "rel": "fresh", "other": True},
          {"op": "construct"}, {"op": "construct"}, {"op": "replace", "magic": 10, "rel": "equal", "other": True},
          {"op": "construct", "hook": "install"}, {"op": "replace", "magic": 9, "rel": "fresh", "other": True},
